@@ -202,9 +202,11 @@ def run(prop, tier, seed, t0, a):
     still_und = []
     for o in undecided:
         cand = None if isinstance(o, dict) else getattr(o, 'candidate', None)
-        if cand:
-            o.model = cand
-            inputs = model_inputs(o)
+        if not isinstance(o, dict):
+            # with a candidate model: replay it; without one (plain timeout): run the obligation's replay battery without inputs -
+            # a concrete failing run of the real code is a violation whatever the proof status, a quiet one leaves it undecided
+            o.model = cand or {}
+            inputs = model_inputs(o) if cand else {}
             hit = None
             for pat, fn in reg.replays:
                 if re.search(pat, o.name):
